@@ -19,7 +19,7 @@ type tnode struct {
 // genDestTree: directories with 0..many entries per directory in every sort position.
 func genDestTree(g *rng, maxDepth int) []tnode {
 	var out []tnode
-	names := []string{"a", "b", "c", "m", "x1", "x2", "z", "0", "aa", "keep", "\xc3\xa9", "M", "b.txt", "a-b"}
+	names := []string{"a", "b", "c", "m", "x1", "x2", "z", "0", "aa", "keep", "\xc3\xa9", "M", "b.txt", "a-b", "#notes#", "-dash", "!bang", "+plus", " sp"} // incl. names that sort before "."
 	var rec func(prefix string, depth int)
 	rec = func(prefix string, depth int) {
 		n := g.intn(6)
